@@ -54,5 +54,14 @@ func (ln listener) Accept() (net.Conn, error) {
 	fmt.Fprintf(conn, "Password :\r")
 	_, err = reader.ReadString('\r') //TODO
 
-	return &Conn{conn, remoteCall}, err
+	return &Conn{bufferedConn{conn, reader}, remoteCall}, err
 }
+
+// bufferedConn is a net.Conn that reads through the buffered reader used during login, so that data
+// received together with the last login line is not lost.
+type bufferedConn struct {
+	net.Conn
+	r *bufio.Reader
+}
+
+func (c bufferedConn) Read(p []byte) (int, error) { return c.r.Read(p) }
